@@ -5,6 +5,7 @@ import (
 	"go/constant"
 	"go/token"
 	"go/types"
+	"strings"
 
 	"golang.org/x/tools/go/ssa"
 )
@@ -422,4 +423,96 @@ func RunExtentPairs(w *World, r *Report) {
 
 func bconstIntOK(v ssa.Value) (int64, bool) {
 	return bconstInt(v)
+}
+
+// RunFDMatrix: in a CID-keyed CFF font every font dictionary has its own
+// matrix, which applies before the font matrix. A metric query of sfnt.Font
+// that scales by f.FontMatrix therefore also consults the FontMatrices of the
+// outlines (directly or through a callee), or excludes CID-keyed fonts; one
+// that does neither disagrees with its siblings for such fonts.
+func RunFDMatrix(w *World, r *Report) {
+	r.Rule("fdmatrix: every method of sfnt.Font that reads the field FontMatrix also reaches (itself or through static callees inside the module) a read of the field FontMatrices of the CFF outlines or a call of IsCIDKeyed: the per-font-dictionary matrices of CID-keyed fonts are taken into account by all metric queries alike")
+	reads := func(fn *ssa.Function, field string) bool {
+		for _, b := range fn.Blocks {
+			for _, in := range b.Instrs {
+				if fa, ok := in.(*ssa.FieldAddr); ok && fieldName(fa) == field {
+					return true
+				}
+				if f, ok := in.(*ssa.Field); ok && fieldNameOfField(f) == field {
+					return true
+				}
+			}
+		}
+		return false
+	}
+	var reaches func(fn *ssa.Function, seen map[*ssa.Function]bool) bool
+	reaches = func(fn *ssa.Function, seen map[*ssa.Function]bool) bool {
+		if seen[fn] || len(fn.Blocks) == 0 {
+			return false
+		}
+		seen[fn] = true
+		if reads(fn, "FontMatrices") {
+			return true
+		}
+		for _, b := range fn.Blocks {
+			for _, in := range b.Instrs {
+				c, ok := in.(*ssa.Call)
+				if !ok {
+					continue
+				}
+				callee := c.Call.StaticCallee()
+				if callee == nil {
+					if c.Call.IsInvoke() && c.Call.Method.Name() == "IsCIDKeyed" {
+						return true
+					}
+					continue
+				}
+				if callee.Name() == "IsCIDKeyed" {
+					return true
+				}
+				if isLibPkg(fnPkgPath(callee)) && reaches(callee, seen) {
+					return true
+				}
+			}
+		}
+		return false
+	}
+	n := 0
+	for _, fn := range w.LibFuncs() {
+		if fnPkgPath(fn) != modPath || fn.Signature.Recv() == nil || fn.Parent() != nil {
+			continue
+		}
+		if !strings.HasSuffix(fn.Signature.Recv().Type().String(), "sfnt.Font") {
+			continue
+		}
+		if !reads(fn, "FontMatrix") {
+			continue
+		}
+		// writers and readers of the whole font copy the matrix; the rule is about queries that scale by it
+		scales := false
+		for _, b := range fn.Blocks {
+			for _, in := range b.Instrs {
+				if bo, ok := in.(*ssa.BinOp); ok && (bo.Op == token.MUL || bo.Op == token.QUO) {
+					if _, isF := bo.Type().Underlying().(*types.Basic); isF && bo.Type().Underlying().(*types.Basic).Info()&types.IsFloat != 0 {
+						for v := range backSlice(bo) {
+							if fa, ok := v.(*ssa.FieldAddr); ok && fieldName(fa) == "FontMatrix" {
+								scales = true
+							}
+						}
+					}
+				}
+			}
+		}
+		if !scales {
+			continue
+		}
+		n++
+		key := r.MkKey("fdmatrix", fnName(fn), "scaling by FontMatrix")
+		if reaches(fn, map[*ssa.Function]bool{}) {
+			r.OK("fdmatrix", key, w.Pos(fn.Pos()), "the font dictionary matrices are consulted (or CID-keyed fonts excluded)")
+		} else {
+			r.Fail("fdmatrix", key, w.Pos(fn.Pos()), "this query scales by f.FontMatrix without looking at the FontMatrices of the font dictionaries and without excluding CID-keyed fonts: for a CID-keyed font whose font dictionaries carry their own matrix it disagrees with the queries that do", nil)
+		}
+	}
+	r.Floor("fdmatrix", 1)
 }
